@@ -44,11 +44,14 @@ def Op.covers : Op → Nat → Prop
 /-- Offset `x` has arrived: some `recv` op of the history covers it. -/
 def arrived (ops : List Op) (x : Nat) : Prop := ∃ op ∈ ops, op.covers x
 
-/-- Largest `off + len` over the non-empty `recv` ops of a history (0 if none). -/
-def maxEnd : List Op → Nat
-  | [] => 0
-  | .recv off data :: ops => if data.isEmpty then maxEnd ops else max (off + data.length) (maxEnd ops)
-  | _ :: ops => maxEnd ops
+/-- `off + len` of a non-empty `recv` op, 0 for every other op. -/
+def Op.endOf : Op → Nat
+  | .recv off data => if data.isEmpty then 0 else off + data.length
+  | .read _ => 0
+  | .next => 0
+
+/-- Largest `off + len` over the non-empty `recv` ops of a history (0 if none); see `maxEnd_is_max`. -/
+def maxEnd (ops : List Op) : Nat := ops.foldl (fun m op => max m op.endOf) 0
 
 /-- Offset `y` is stored in some segment. -/
 def covered (segs : List Seg) (y : Nat) : Prop := ∃ seg ∈ segs, seg.off ≤ y ∧ y < seg.stop
@@ -134,6 +137,24 @@ theorem inv_iff (src : Bytes) (s : State) :
     | cons a rest =>
       simp [hs] at hm; subst hm
       exact (hw.off_ge a (by simp [hs])).1
+
+/-! ### `largest` bookkeeping (moved here from Props/C08.lean) -/
+
+theorem ins_largest_mono (segs : List Seg) (start : Nat) (data : Bytes) (lg : Nat) :
+    lg ≤ (ins segs start data lg).2 := by
+  fun_induction ins segs start data lg
+  · simp
+  · simp; omega
+  · simp
+  · simp; omega
+  · simp_all
+  · rename_i h1 h2 h3 pre lg1 r lg' heq ih
+    simp only [heq] at ih
+    simp only [lg1] at ih
+    split at ih <;> omega
+
+theorem tryNext_largest (s : State) : (tryNext s).1.largest = s.largest := by
+  unfold tryNext; split <;> (try split) <;> simp
 
 /-! ### unfolding equations of `ins` (one per Rust sub-case) -/
 
@@ -401,25 +422,20 @@ theorem readGo_full {seg : Seg} {rest : List Seg} {nread cap : Nat} (h1 : seg.of
   have : min cap seg.data.length = seg.data.length := by omega
   simp [readGo, h1, h2, this]
 
-/-- Everything `try_read` does, in one statement (one induction over the segment list). -/
-theorem readGo_spec {src : Bytes} {hi : Nat} {segs : List Seg} {nread cap : Nat}
-    (hw : Wf nread hi segs) (hc : Content src segs) :
+/-- What `try_read` does to structure, length and coverage (one induction over the segment list). -/
+theorem readGo_struct {hi : Nat} {segs : List Seg} {nread cap : Nat} (hw : Wf nread hi segs) :
     (readGo segs nread cap).2.1 = nread + (readGo segs nread cap).2.2.length ∧
     (readGo segs nread cap).2.2.length = min cap (contEnd segs nread - nread) ∧
     Wf (readGo segs nread cap).2.1 hi (readGo segs nread cap).1 ∧
-    Content src (readGo segs nread cap).1 ∧
-    IsSlice src nread (readGo segs nread cap).2.2 ∧
     (∀ y, (y < (readGo segs nread cap).2.1 ∨ covered (readGo segs nread cap).1 y) ↔ (y < nread ∨ covered segs y)) := by
   induction segs generalizing nread cap with
-  | nil => simp [readGo, contEnd, Wf, isSlice_nil]; exact hc
+  | nil => simp [readGo, contEnd, Wf]
   | cons seg rest ih =>
     obtain ⟨a, b, c, d⟩ := hw
-    have hseg : IsSlice src seg.off seg.data := hc seg (by simp)
-    have hrest : Content src rest := fun s hm => hc s (by simp [hm])
     have hlen := List.length_pos_iff.mpr b
     by_cases h : seg.off ≠ nread ∨ cap = 0
     · rw [readGo_stop h]
-      refine ⟨by simp, ?_, ⟨a, b, c, d⟩, hc, isSlice_nil _ _, fun y => Iff.rfl⟩
+      refine ⟨by simp, ?_, ⟨a, b, c, d⟩, fun y => Iff.rfl⟩
       simp only [contEnd, List.length_nil]
       rcases h with h | h
       · simp [h]
@@ -430,17 +446,12 @@ theorem readGo_spec {src : Bytes} {hi : Nat} {segs : List Seg} {nread cap : Nat}
       have hge := contEnd_ge rest (nread + seg.data.length)
       by_cases h3 : cap < seg.data.length
       · rw [readGo_partial h1 h2 h3]
-        refine ⟨by simp; omega, by simp [hce]; omega, ?_, ?_, ?_, ?_⟩
+        refine ⟨by simp; omega, by simp [hce]; omega, ?_, ?_⟩
         · refine ⟨by simp; omega, ?_, ?_, ?_⟩
           · apply List.length_pos_iff.mp; simp; omega
           · simp [Seg.stop] at *; omega
           · have : (⟨seg.off + cap, seg.data.drop cap⟩ : Seg).stop = seg.stop := by simp [Seg.stop]; omega
             rw [this]; exact d
-        · intro s hm
-          rcases List.mem_cons.mp hm with rfl | hm
-          · exact hseg.drop cap
-          · exact hrest s hm
-        · rw [← h1]; exact hseg.take cap
         · intro y
           by_cases hcv : covered rest y <;> simp [hcv, Seg.stop] <;> omega
       · have h3' : seg.data.length ≤ cap := by omega
@@ -448,13 +459,38 @@ theorem readGo_spec {src : Bytes} {hi : Nat} {segs : List Seg} {nread cap : Nat}
         have hd : Wf (nread + seg.data.length) hi rest := by
           have : nread + seg.data.length = seg.stop := by simp [Seg.stop]; omega
           rw [this]; exact d
-        obtain ⟨i1, i2, i3, i4, i5, i6⟩ := ih (nread := nread + seg.data.length) (cap := cap - seg.data.length) hd hrest
-        refine ⟨by simp only [i1, List.length_append]; omega, by simp only [List.length_append, i2, hce]; omega, i3, i4, ?_, ?_⟩
-        · unfold IsSlice at *
-          rw [List.length_append, List.take_add, List.drop_drop, ← i5, ← h1, ← hseg]
-        · intro y
-          rw [i6 y]
-          by_cases hcv : covered rest y <;> simp [hcv, Seg.stop] <;> omega
+        obtain ⟨i1, i2, i3, i6⟩ := ih (nread := nread + seg.data.length) (cap := cap - seg.data.length) hd
+        refine ⟨by simp only [i1, List.length_append]; omega, by simp only [List.length_append, i2, hce]; omega, i3, ?_⟩
+        intro y
+        rw [i6 y]
+        by_cases hcv : covered rest y <;> simp [hcv, Seg.stop] <;> omega
+
+/-- What `try_read` hands out is the slice of `src` at `nread`, and what it keeps are still slices. -/
+theorem readGo_content {src : Bytes} {segs : List Seg} {nread cap : Nat} (hc : Content src segs) :
+    Content src (readGo segs nread cap).1 ∧ IsSlice src nread (readGo segs nread cap).2.2 := by
+  induction segs generalizing nread cap with
+  | nil => simp [readGo, isSlice_nil]; exact hc
+  | cons seg rest ih =>
+    have hseg : IsSlice src seg.off seg.data := hc seg (by simp)
+    have hrest : Content src rest := fun s hm => hc s (by simp [hm])
+    by_cases h : seg.off ≠ nread ∨ cap = 0
+    · rw [readGo_stop h]; exact ⟨hc, isSlice_nil _ _⟩
+    · have h1 : seg.off = nread := by omega
+      have h2 : cap ≠ 0 := by omega
+      by_cases h3 : cap < seg.data.length
+      · rw [readGo_partial h1 h2 h3]
+        refine ⟨?_, ?_⟩
+        · intro s hm
+          rcases List.mem_cons.mp hm with rfl | hm
+          · exact hseg.drop cap
+          · exact hrest s hm
+        · rw [← h1]; exact hseg.take cap
+      · have h3' : seg.data.length ≤ cap := by omega
+        rw [readGo_full h1 h2 h3']
+        obtain ⟨i4, i5⟩ := ih (nread := nread + seg.data.length) (cap := cap - seg.data.length) hrest
+        refine ⟨i4, ?_⟩
+        unfold IsSlice at *
+        rw [List.length_append, List.take_add, List.drop_drop, ← i5, ← h1, ← hseg]
 
 /-! ### `tryNext` -/
 
@@ -469,5 +505,345 @@ theorem tryNext_some_iff (s : State) : (tryNext s).2.isSome ↔ ∃ seg rest, s.
 theorem tryNext_eq_of_ready {s : State} {seg : Seg} {rest : List Seg} (hs : s.segs = seg :: rest) (h : seg.off = s.nread) :
     tryNext s = ({ s with segs := rest, nread := s.nread + seg.data.length }, some seg.data) := by
   unfold tryNext; simp [hs, h]
+
+/-! ## Part 3: state-level steps -/
+
+/-- structural part of `Inv` (no reference to `src`) -/
+def StructInv (s : State) : Prop := Wf s.nread s.largest s.segs ∧ s.nread ≤ s.largest
+
+theorem inv_iff' (src : Bytes) (s : State) :
+    Inv src s ↔ StructInv s ∧ Content src s.segs ∧ s.largest ≤ src.length := by
+  rw [inv_iff]; unfold StructInv
+  constructor
+  · rintro ⟨a, b, c, d⟩; exact ⟨⟨a, d⟩, b, c⟩
+  · rintro ⟨⟨a, d⟩, b, c⟩; exact ⟨a, b, c, d⟩
+
+/-- start offset and trimmed data of `recv` -/
+def recvStart (s : State) (off : Nat) : Nat := max off s.nread
+def recvData (s : State) (off : Nat) (data : Bytes) : Bytes := data.drop (min data.length (recvStart s off - off))
+
+theorem recv_fst (s : State) (off : Nat) (data : Bytes) :
+    (recv s off data).1 = { s with segs := (ins s.segs (recvStart s off) (recvData s off data) s.largest).1,
+                                   largest := (ins s.segs (recvStart s off) (recvData s off data) s.largest).2 } := by
+  simp [recv, recvStart, recvData]
+
+theorem recv_snd (s : State) (off : Nat) (data : Bytes) :
+    (recv s off data).2 = (recv s off data).1.largest - s.largest := by
+  simp [recv]
+
+theorem recvData_end {s : State} {off : Nat} {data : Bytes} (h : recvData s off data ≠ []) :
+    recvStart s off + (recvData s off data).length = off + data.length ∧ data ≠ [] := by
+  have := List.length_pos_iff.mpr h
+  unfold recvData recvStart at *
+  simp only [List.length_drop] at *
+  refine ⟨by omega, ?_⟩
+  intro h0; subst h0; simp at this
+
+theorem recvData_nil {s : State} {off : Nat} {data : Bytes} (h : recvData s off data = []) :
+    data = [] ∨ off + data.length ≤ s.nread := by
+  have := List.drop_eq_nil_iff.mp h
+  unfold recvStart at this
+  by_cases hd : data = []
+  · exact Or.inl hd
+  · have := List.length_pos_iff.mpr hd
+    right; omega
+
+theorem recv_largest {s : State} (hs : StructInv s) (off : Nat) (data : Bytes) :
+    (recv s off data).1.largest = if data.isEmpty then s.largest else max s.largest (off + data.length) := by
+  rw [recv_fst]; simp only
+  by_cases hd : recvData s off data = []
+  · rw [hd, ins_empty]
+    rcases recvData_nil hd with h | h
+    · simp [h]
+    · split
+      · rfl
+      · have := hs.2; simp only; omega
+  · rw [ins_lg (fun seg hm => (hs.1.off_ge seg hm).2.2) hd]
+    obtain ⟨h1, h2⟩ := recvData_end hd
+    simp [h2, h1]
+
+theorem recv_struct {s : State} (hs : StructInv s) (off : Nat) (data : Bytes) : StructInv (recv s off data).1 := by
+  have hl := recv_largest hs off data
+  rw [recv_fst] at *
+  simp only at hl
+  refine ⟨?_, ?_⟩
+  · simp only
+    apply ins_wf hs.1 (by unfold recvStart; omega) (hi' := _)
+    · rw [hl]; split <;> omega
+    · intro hd
+      obtain ⟨h1, h2⟩ := recvData_end hd
+      rw [hl, h1]; simp [h2]; omega
+  · simp only; rw [hl]; have := hs.2; split <;> omega
+
+theorem recvData_slice {src : Bytes} {s : State} {off : Nat} {data : Bytes} (h : IsSlice src off data) :
+    IsSlice src (recvStart s off) (recvData s off data) := by
+  by_cases hd : recvData s off data = []
+  · rw [hd]; exact isSlice_nil _ _
+  · have := List.length_pos_iff.mpr hd
+    unfold recvData at *
+    simp only [List.length_drop] at this
+    have h2 := h.drop (min data.length (recvStart s off - off))
+    have : off + min data.length (recvStart s off - off) = recvStart s off := by unfold recvStart at *; omega
+    rw [this] at h2; exact h2
+
+theorem recv_inv' {src : Bytes} {s : State} (h : Inv src s) {off : Nat} {data : Bytes}
+    (hop : (Op.recv off data).SliceOf src) : Inv src (recv s off data).1 := by
+  rw [inv_iff'] at *
+  obtain ⟨hs, hc, hl⟩ := h
+  refine ⟨recv_struct hs off data, ?_, ?_⟩
+  · rw [recv_fst]; exact ins_content hc (recvData_slice hop.2)
+  · rw [recv_largest hs]; split
+    · exact hl
+    · have := hop.1; omega
+
+theorem recv_covered (s : State) (off : Nat) (data : Bytes) (y : Nat) :
+    (y < (recv s off data).1.nread ∨ covered (recv s off data).1.segs y) ↔
+      (y < s.nread ∨ covered s.segs y) ∨ (off ≤ y ∧ y < off + data.length) := by
+  rw [recv_fst]; simp only [ins_covered]
+  unfold recvData recvStart
+  simp only [List.length_drop]
+  by_cases hc : covered s.segs y <;> simp [hc] <;> omega
+
+/-! `tryRead` -/
+
+theorem tryRead_fst (s : State) (cap : Nat) :
+    (tryRead s cap).1 = { s with segs := (readGo s.segs s.nread cap).1, nread := (readGo s.segs s.nread cap).2.1 } := by
+  simp [tryRead]
+
+theorem tryRead_snd (s : State) (cap : Nat) : (tryRead s cap).2 = (readGo s.segs s.nread cap).2.2 := by
+  simp [tryRead]
+
+theorem available_eq (s : State) : s.nread + available s = contEnd s.segs s.nread := by
+  have := contEnd_ge s.segs s.nread
+  unfold available; omega
+
+theorem read_struct {s : State} (hs : StructInv s) (cap : Nat) : StructInv (tryRead s cap).1 := by
+  obtain ⟨i1, i2, i3, _⟩ := readGo_struct (cap := cap) hs.1
+  rw [tryRead_fst]
+  refine ⟨i3, ?_⟩
+  simp only
+  -- nread' = nread + |out| ≤ contEnd ≤ largest
+  cases hsegs : (readGo s.segs s.nread cap).1 with
+  | nil =>
+    -- no segment left: bound through coverage of the last read byte
+    by_cases h0 : (readGo s.segs s.nread cap).2.2.length = 0
+    · have := hs.2; omega
+    · obtain ⟨_, _, _, i6⟩ := readGo_struct (cap := cap) hs.1
+      have hy := (i6 ((readGo s.segs s.nread cap).2.1 - 1)).mp (Or.inl (by omega))
+      rcases hy with hy | ⟨seg, hm, _, h2⟩
+      · omega
+      · have := (hs.1.off_ge seg hm).2.2
+        omega
+  | cons seg rest =>
+    rw [hsegs] at i3
+    have := i3.1; have := i3.2.2.1
+    have := Seg.off_lt_stop i3.2.1
+    omega
+
+theorem read_inv' {src : Bytes} {s : State} (h : Inv src s) (cap : Nat) : Inv src (tryRead s cap).1 := by
+  rw [inv_iff'] at *
+  obtain ⟨hs, hc, hl⟩ := h
+  refine ⟨read_struct hs cap, ?_, ?_⟩
+  · rw [tryRead_fst]; exact (readGo_content hc).1
+  · rw [tryRead_fst]; exact hl
+
+theorem read_len {s : State} (hs : StructInv s) (cap : Nat) :
+    (tryRead s cap).2.length = min cap (available s) ∧
+    (tryRead s cap).1.nread = s.nread + (tryRead s cap).2.length := by
+  obtain ⟨i1, i2, _, _⟩ := readGo_struct (cap := cap) hs.1
+  rw [tryRead_fst, tryRead_snd]
+  exact ⟨i2, i1⟩
+
+theorem read_covered {s : State} (hs : StructInv s) (cap : Nat) (y : Nat) :
+    (y < (tryRead s cap).1.nread ∨ covered (tryRead s cap).1.segs y) ↔ (y < s.nread ∨ covered s.segs y) := by
+  rw [tryRead_fst]; exact (readGo_struct (cap := cap) hs.1).2.2.2 y
+
+theorem read_out {src : Bytes} {s : State} (h : Inv src s) (cap : Nat) {out : Bytes} (ho : out = src.take s.nread) :
+    out ++ (tryRead s cap).2 = src.take (tryRead s cap).1.nread := by
+  rw [inv_iff'] at h
+  have h5 := (readGo_content (nread := s.nread) (cap := cap) h.2.1).2
+  rw [(read_len h.1 cap).2, tryRead_snd, ho, List.take_add]
+  unfold IsSlice at h5
+  rw [← h5]
+
+/-! `tryNext` -/
+
+theorem tryNext_cases (s : State) :
+    ((tryNext s).2 = none ∧ (tryNext s).1 = s ∧ available s = 0) ∨
+    (∃ seg rest, s.segs = seg :: rest ∧ seg.off = s.nread ∧
+      tryNext s = ({ s with segs := rest, nread := s.nread + seg.data.length }, some seg.data)) := by
+  unfold tryNext available
+  cases hs : s.segs with
+  | nil => left; simp [contEnd]
+  | cons seg rest =>
+    by_cases h : seg.off = s.nread
+    · right; exact ⟨seg, rest, rfl, h, by simp [h]⟩
+    · left; simp [h, contEnd]
+
+theorem next_struct {s : State} (hs : StructInv s) : StructInv (tryNext s).1 := by
+  rcases tryNext_cases s with ⟨_, h, _⟩ | ⟨seg, rest, hsegs, hoff, heq⟩
+  · rw [h]; exact hs
+  · rw [heq]
+    obtain ⟨hw, hn⟩ := hs
+    rw [hsegs] at hw
+    obtain ⟨a, b, c, d⟩ := hw
+    have : s.nread + seg.data.length = seg.stop := by unfold Seg.stop; omega
+    refine ⟨?_, ?_⟩
+    · simp only; rw [this]; exact d
+    · simp only; omega
+
+theorem next_inv' {src : Bytes} {s : State} (h : Inv src s) : Inv src (tryNext s).1 := by
+  rw [inv_iff'] at *
+  obtain ⟨hs, hc, hl⟩ := h
+  refine ⟨next_struct hs, ?_, ?_⟩
+  · rcases tryNext_cases s with ⟨_, h, _⟩ | ⟨seg, rest, hsegs, hoff, heq⟩
+    · rw [h]; exact hc
+    · rw [heq]; intro sg hm; exact hc sg (by rw [hsegs]; simp at hm ⊢; exact Or.inr hm)
+  · rcases tryNext_cases s with ⟨_, h, _⟩ | ⟨seg, rest, hsegs, hoff, heq⟩
+    · rw [h]; exact hl
+    · rw [heq]; exact hl
+
+theorem next_covered (s : State) (y : Nat) :
+    (y < (tryNext s).1.nread ∨ covered (tryNext s).1.segs y) ↔ (y < s.nread ∨ covered s.segs y) := by
+  rcases tryNext_cases s with ⟨_, h, _⟩ | ⟨seg, rest, hsegs, hoff, heq⟩
+  · rw [h]
+  · rw [heq, hsegs]; simp only [covered_cons, Seg.stop]
+    by_cases hc : covered rest y <;> simp [hc] <;> omega
+
+theorem next_some_iff {s : State} (hs : StructInv s) : (tryNext s).2.isSome ↔ 0 < available s := by
+  rcases tryNext_cases s with ⟨h1, _, h3⟩ | ⟨seg, rest, hsegs, hoff, heq⟩
+  · simp [h1, h3]
+  · rw [heq]; simp only [Option.isSome_some, true_iff]
+    have hw := hs.1; rw [hsegs] at hw
+    have := List.length_pos_iff.mpr hw.2.1
+    have h2 := contEnd_ge rest (s.nread + seg.data.length)
+    unfold available; rw [hsegs]; simp only [contEnd, hoff, if_true]; omega
+
+theorem next_out {src : Bytes} {s : State} (h : Inv src s) {out : Bytes} (ho : out = src.take s.nread) :
+    out ++ ((tryNext s).2.getD []) = src.take (tryNext s).1.nread := by
+  rcases tryNext_cases s with ⟨h1, h2, _⟩ | ⟨seg, rest, hsegs, hoff, heq⟩
+  · rw [h1, h2]; simpa using ho
+  · rw [heq]; simp only [Option.getD_some]
+    have hc := h.content seg (by rw [hsegs]; simp)
+    rw [ho, List.take_add, ← hoff, ← hc]
+
+/-- `tryNext` hands out exactly the first stored segment when it is readable. -/
+theorem next_len (s : State) :
+    (tryNext s).1.nread = s.nread + ((tryNext s).2.getD []).length := by
+  rcases tryNext_cases s with ⟨h1, h2, _⟩ | ⟨seg, rest, hsegs, hoff, heq⟩
+  · rw [h1, h2]; simp
+  · rw [heq]; simp
+
+/-! ## Part 4: runs -/
+
+theorem run_snoc (ops : List Op) (op : Op) : run (ops ++ [op]) = (run ops).step op := by
+  simp [run, List.foldl_append]
+
+/-- Induction over histories, left to right, with the history so far visible to the invariant. -/
+theorem run_induction {Q : Op → Prop} {P : List Op → Run → Prop} (h0 : P [] {})
+    (hs : ∀ pre r op, Q op → P pre r → P (pre ++ [op]) (r.step op)) :
+    ∀ ops, (∀ op ∈ ops, Q op) → P ops (run ops) := by
+  suffices h : ∀ ops pre r, P pre r → (∀ op ∈ ops, Q op) → P (pre ++ ops) (ops.foldl Run.step r) by
+    intro ops hq; simpa [run] using h ops [] {} h0 hq
+  intro ops
+  induction ops with
+  | nil => intro pre r hp _; simpa using hp
+  | cons op ops ih =>
+    intro pre r hp hq
+    have := ih (pre ++ [op]) (r.step op) (hs pre r op (hq op (by simp)) hp) (fun o hm => hq o (by simp [hm]))
+    simpa using this
+
+theorem snoc_induction {P : List Op → Prop} (h0 : P []) (hs : ∀ pre op, P pre → P (pre ++ [op])) (ops : List Op) :
+    P ops :=
+  run_induction (Q := fun _ => True) (P := fun ops _ => P ops) h0 (fun pre _ op _ h => hs pre op h) ops
+    (fun _ _ => trivial)
+
+theorem step_recv (r : Run) (off : Nat) (data : Bytes) :
+    r.step (.recv off data) = { r with buf := (recv r.buf off data).1, charged := r.charged + (recv r.buf off data).2 } := rfl
+
+theorem step_read (r : Run) (cap : Nat) :
+    r.step (.read cap) = { r with buf := (tryRead r.buf cap).1, out := r.out ++ (tryRead r.buf cap).2 } := rfl
+
+theorem step_next (r : Run) :
+    r.step .next = { r with buf := (tryNext r.buf).1, out := r.out ++ (tryNext r.buf).2.getD [] } := by
+  simp only [Run.step]
+  split <;> rename_i h <;> simp [h]
+
+theorem arrived_snoc (pre : List Op) (op : Op) (y : Nat) : arrived (pre ++ [op]) y ↔ arrived pre y ∨ op.covers y := by
+  simp [arrived, or_and_right, exists_or]
+
+theorem maxEnd_snoc (pre : List Op) (op : Op) : maxEnd (pre ++ [op]) = max (maxEnd pre) op.endOf := by
+  simp [maxEnd, List.foldl_append]
+
+/-- Facts that hold for EVERY history (no premise on the fragments): the structural invariant,
+`largest = maxEnd`, and "arrived = already read or stored". -/
+structure RunStruct (ops : List Op) (r : Run) : Prop where
+  struct : StructInv r.buf
+  lg : r.buf.largest = maxEnd ops
+  arr : ∀ y, arrived ops y ↔ (y < r.buf.nread ∨ covered r.buf.segs y)
+
+theorem run_struct (ops : List Op) : RunStruct ops (run ops) := by
+  refine run_induction (Q := fun _ => True) (P := RunStruct) ⟨⟨trivial, Nat.le_refl _⟩, rfl, ?_⟩ ?_ ops (fun _ _ => trivial)
+  · intro y; simp [arrived]
+  rintro pre r op - ⟨hs, hl, ha⟩
+  cases op with
+  | recv off data =>
+    rw [step_recv]
+    refine ⟨recv_struct hs off data, ?_, ?_⟩
+    · rw [maxEnd_snoc]; simp only [recv_largest hs, Op.endOf, hl]
+      split <;> omega
+    · intro y; rw [arrived_snoc, ha y]; simp only; rw [recv_covered]; rfl
+  | read cap =>
+    rw [step_read]
+    refine ⟨read_struct hs cap, ?_, ?_⟩
+    · rw [maxEnd_snoc]; simp only [tryRead_fst, Op.endOf, hl]; omega
+    · intro y; rw [arrived_snoc, ha y]; simp only; rw [read_covered hs]; simp [Op.covers]
+  | next =>
+    rw [step_next]
+    refine ⟨next_struct hs, ?_, ?_⟩
+    · rw [maxEnd_snoc]; simp only [Op.endOf, tryNext_largest, hl]; omega
+    · intro y; rw [arrived_snoc, ha y]; simp only; rw [next_covered]; simp [Op.covers]
+
+/-- Invariant of a run whose fragments are slices of `src`. -/
+structure RunInv (src : Bytes) (r : Run) : Prop where
+  inv : Inv src r.buf
+  out : r.out = src.take r.buf.nread
+
+theorem run_inv (src : Bytes) (ops : List Op) (h : ∀ op ∈ ops, op.SliceOf src) : RunInv src (run ops) := by
+  refine run_induction (Q := fun op => op.SliceOf src) (P := fun _ r => RunInv src r) ?_ ?_ ops h
+  · exact ⟨(inv_iff' _ _).mpr ⟨⟨trivial, Nat.le_refl _⟩, by intro s hm; simp at hm, Nat.zero_le _⟩, by simp⟩
+  · rintro pre r op hq ⟨hi, ho⟩
+    cases op with
+    | recv off data =>
+      rw [step_recv]
+      refine ⟨recv_inv' hi hq, ?_⟩
+      simp only [recv_fst]; exact ho
+    | read cap => rw [step_read]; exact ⟨read_inv' hi cap, read_out hi cap ho⟩
+    | next => rw [step_next]; exact ⟨next_inv' hi, next_out hi ho⟩
+
+theorem maxEnd_is_max (ops : List Op) :
+    (∀ op ∈ ops, op.endOf ≤ maxEnd ops) ∧ (maxEnd ops = 0 ∨ ∃ op ∈ ops, op.endOf = maxEnd ops) := by
+  induction ops using snoc_induction with
+  | h0 => simp [maxEnd]
+  | hs pre op ih =>
+    rw [maxEnd_snoc]
+    obtain ⟨h1, h2⟩ := ih
+    refine ⟨?_, ?_⟩
+    · intro o hm
+      rcases List.mem_append.mp hm with hm | hm
+      · have := h1 o hm; omega
+      · simp at hm; subst hm; omega
+    · by_cases hle : op.endOf ≤ maxEnd pre
+      · rcases h2 with h2 | ⟨o, hm, h2⟩
+        · left; omega
+        · right; exact ⟨o, by simp [hm], by omega⟩
+      · right; exact ⟨op, by simp, by omega⟩
+
+/-! ### concrete history used by the non-vacuity examples of Props/C08.lean:
+three overlapping fragments (the second overlaps the first on the left, the third on the right and is
+partly already read), interleaved with `read` / `next`. -/
+def exSrc : Bytes := [1, 2, 3, 4, 5, 6, 7, 8]
+def exOps : List Op :=
+  [.recv 2 [3, 4, 5], .recv 0 [1, 2, 3], .read 1, .recv 1 [2, 3, 4, 5, 6, 7], .next, .read 1, .recv 7 [], .read 10]
 
 end GmQuic.RecvBuf
